@@ -126,6 +126,9 @@ def factsOk : Bool :=
   nondet == ["minify.M.Reader: go", "minify.M.Writer: go", "minify.responseWriter.Write: go"] &&
   -- lock discipline of the registry
   lockUse == expectedLockUse &&
+  -- the registry's own fields are assigned only by the registration methods (which hold the write lock)
+  registryWrites == ["M.Add: m.literal[mimetype]", "M.AddCmd: m.literal[mimetype]", "M.AddCmdRegexp: m.pattern",
+    "M.AddFunc: m.literal[mimetype]", "M.AddFuncRegexp: m.pattern", "M.AddRegexp: m.pattern"] &&
   -- package-level slices are only handed to read-only callees …
   globalArgCallees.all (fun s => readOnlyCallees.contains s) &&
   -- … and appended to only at two known sites (cap == len is checked at run time through the hook)
